@@ -19,6 +19,7 @@ KEYWORDS = {
     "lenofTwice": ["duplicate lengthof", "duplicate length"],
     "undeclaredPacket": ["unknown packet", "undeclared packet", "undefined packet", "not defined", "unknown type"],
     "undeclaredMeta": ["unknown metadata", "undeclared metadata", "metadata type", "unknown meta"],
+    "lenofAfterTarget": ["must be declared before", "before its target", "after its target"],
     "undeclaredKeyField": ["unknown match key", "undeclared key", "unknown key field", "key field", "match key"],
     "undeclaredLenTarget": ["unknown length", "length target", "lengthof target", "unknown field", "undeclared field", "target field"],
 }
